@@ -87,11 +87,12 @@ func (e *c14Env) close() {
 // ---------------------------------------------------------------- operations
 
 type c14Op struct {
-	kind     string // write patch read delete deletev undelete destroy metawrite metadelete metaread config
+	kind     string // write patch read delete deletev undelete destroy metawrite metadelete metaread config configread remount
 	path     int
 	pathName string // overrides c14Paths[path] (warm-up only)
 	hasCas   bool
 	cas      int
+	optShape int            // write/patch: 0 an "options" member only when a cas is given; 1 always an options object (empty without cas, as the CLI sends); 2 options with an unrelated entry besides the cas, if any
 	data     map[string]any // write: the data; patch: the merge patch (flat, nil = remove key)
 	version  int            // read: 0 = latest
 	versions []int          // deletev undelete destroy
@@ -117,13 +118,19 @@ func (o *c14Op) isWrite() bool { return o.kind == "write" || o.kind == "patch" }
 
 func (o *c14Op) String() string {
 	s := o.kind
-	if o.kind != "config" {
+	if o.kind != "config" && o.kind != "configread" && o.kind != "remount" {
 		s += " " + o.name()
 	}
 	switch o.kind {
 	case "write", "patch":
 		if o.hasCas {
 			s += fmt.Sprintf(" cas=%d", o.cas)
+		}
+		switch {
+		case o.optShape == 1 && !o.hasCas:
+			s += " options={}"
+		case o.optShape == 2:
+			s += " options+=unrelated"
 		}
 		b, _ := json.Marshal(o.data)
 		s += " " + string(b)
@@ -134,7 +141,7 @@ func (o *c14Op) String() string {
 	case "deletev", "undelete", "destroy":
 		s += fmt.Sprintf(" versions=%v", o.versions)
 	case "metawrite", "config":
-		if o.maxV >= 0 && o.kind == "metawrite" {
+		if o.maxV >= 0 {
 			s += fmt.Sprintf(" max_versions=%d", o.maxV)
 		}
 		if o.casReq >= 0 {
@@ -162,8 +169,16 @@ func (o *c14Op) request(st logical.Storage) *logical.Request {
 			d[k] = v
 		}
 		req.Data["data"] = d
-		if o.hasCas {
-			req.Data["options"] = map[string]any{"cas": o.cas}
+		// the options object: absent, {} , {"cas": n}, or either of them with an entry the engine does not know
+		if o.hasCas || o.optShape > 0 {
+			opts := map[string]any{}
+			if o.hasCas {
+				opts["cas"] = o.cas
+			}
+			if o.optShape == 2 {
+				opts["verif_unrelated"] = "x"
+			}
+			req.Data["options"] = opts
 		}
 	case "read":
 		req.Operation = logical.ReadOperation
@@ -200,10 +215,18 @@ func (o *c14Op) request(st logical.Storage) *logical.Request {
 	case "config":
 		req.Operation = logical.UpdateOperation
 		req.Path = "config"
-		req.Data["cas_required"] = o.casReq == 1
+		if o.casReq >= 0 {
+			req.Data["cas_required"] = o.casReq == 1
+		}
+		if o.maxV >= 0 {
+			req.Data["max_versions"] = o.maxV
+		}
 		if o.dva {
 			req.Data["delete_version_after"] = "87600h"
 		}
+	case "configread":
+		req.Operation = logical.ReadOperation
+		req.Path = "config"
 	default:
 		panic("harness: unknown op kind " + o.kind)
 	}
@@ -310,6 +333,7 @@ func c14AsInt(v any) (int, bool) {
 //	ok v=N data={...}       read returned data
 //	404 v=N del|destroyed|del+destroyed   read answered 404 with the version's metadata
 //	meta cur=N max=M cas=B vers=[v:flags ...]   metadata read
+//	config max=M cas=B      engine configuration read
 //	ok                      the other mutations
 func c14Canon(o *c14Op, resp *logical.Response, err error) (string, string) {
 	if err != nil && !(errors.Is(err, logical.ErrInvalidRequest) && resp != nil && resp.IsError()) {
@@ -412,6 +436,16 @@ func c14Canon(o *c14Op, resp *logical.Response, err error) (string, string) {
 			parts[i] = fmt.Sprintf("%d:%s", v.n, v.f)
 		}
 		return fmt.Sprintf("meta cur=%d max=%d cas=%v vers=[%s]", cur, mx, cr, strings.Join(parts, " ")), ""
+	case "configread":
+		if resp == nil || status != 0 {
+			return fmt.Sprintf("unexpected:status=%d nilresp=%v", status, resp == nil), ""
+		}
+		mx, okM := c14AsInt(resp.Data["max_versions"])
+		cr, okC := resp.Data["cas_required"].(bool)
+		if !okM || !okC {
+			return "unexpected:config-read-shape", fmt.Sprint(resp.Data)
+		}
+		return fmt.Sprintf("config max=%d cas=%v", mx, cr), ""
 	default:
 		if status != 0 {
 			return fmt.Sprintf("unexpected:status=%d", status), ""
@@ -437,7 +471,7 @@ type c14Ver struct {
 type c14PathState struct {
 	exists bool // key metadata exists
 	cur    int  // current version (0: no version yet)
-	maxV   int  // max_versions of the key (0: unset -> engine default 10; the engine-level value is never set here)
+	maxV   int  // max_versions of the key (0: unset -> the engine-level value, and when that is unset too the default 10)
 	casReq bool
 	vers   [c14MaxV + 1]c14Ver
 }
@@ -445,6 +479,9 @@ type c14PathState struct {
 // c14State is comparable (==), as porcupine's default state equality needs.
 type c14State struct {
 	cfgCas bool
+	// engine-level max_versions (0: unset). "This value applies to all keys, but a key's metadata setting can overwrite
+	// this value": which of the two wins when BOTH are set is left open here - generators never set both in one history
+	cfgMax int
 	paths  [2]c14PathState
 }
 
@@ -480,16 +517,22 @@ func c14Merge(base string, patch map[string]any) string {
 	return c14JSON(m)
 }
 
-func (ps *c14PathState) effMax() int {
+func (ps *c14PathState) effMax(cfgMax int) int {
 	if ps.maxV > 0 {
+		if cfgMax > 0 && cfgMax != ps.maxV {
+			panic("harness: key-level and engine-level max_versions are both set; the model does not say which one wins")
+		}
 		return ps.maxV
+	}
+	if cfgMax > 0 {
+		return cfgMax
 	}
 	return 10
 }
 
 // addVersion: a successful write stores the data as version cur+1; afterwards exactly the versions
 // <= cur - max_versions are gone.
-func (ps *c14PathState) addVersion(data string) int {
+func (ps *c14PathState) addVersion(data string, cfgMax int) int {
 	n := ps.cur + 1
 	if n > c14MaxV {
 		panic("harness: model version table too small")
@@ -497,7 +540,7 @@ func (ps *c14PathState) addVersion(data string) int {
 	ps.exists = true
 	ps.cur = n
 	ps.vers[n] = c14Ver{exists: true, data: data}
-	for v := 1; v <= n-ps.effMax(); v++ {
+	for v := 1; v <= n-ps.effMax(cfgMax); v++ {
 		ps.vers[v] = c14Ver{}
 	}
 	return n
@@ -519,8 +562,16 @@ func c14Outcomes(st c14State, o *c14Op) []c14Outcome {
 	same := func(out string) []c14Outcome { return []c14Outcome{{out, st}} }
 	if o.kind == "config" {
 		n := st
-		n.cfgCas = o.casReq == 1
+		if o.casReq >= 0 {
+			n.cfgCas = o.casReq == 1
+		}
+		if o.maxV >= 0 {
+			n.cfgMax = o.maxV
+		}
 		return []c14Outcome{{"ok", n}}
+	}
+	if o.kind == "configread" {
+		return same(fmt.Sprintf("config max=%d cas=%v", st.cfgMax, st.cfgCas))
 	}
 	if o.kind == "remount" {
 		return same("ok") // everything acknowledged is durable
@@ -576,13 +627,13 @@ func c14Outcomes(st c14State, o *c14Op) []c14Outcome {
 				return outs
 			}
 			if casPass {
-				n := ps.addVersion(c14Merge(cv.data, o.data))
+				n := ps.addVersion(c14Merge(cv.data, o.data), st.cfgMax)
 				outs = append(outs, commit(fmt.Sprintf("ok v=%d", n)))
 			}
 			return outs
 		}
 		if casPass {
-			n := ps.addVersion(c14DataString(o.data))
+			n := ps.addVersion(c14DataString(o.data), st.cfgMax)
 			outs = append(outs, commit(fmt.Sprintf("ok v=%d", n)))
 		}
 		return outs
